@@ -28,7 +28,7 @@ class L2Domain:
     def _len(self, x):
         if isinstance(x, Arr):
             if not x.shape:
-                raise TypeError('len() of unsized object')
+                raise Raised('TypeError', 'len() of unsized object')
             return x.shape[0]
         return len(x)
 
